@@ -875,7 +875,13 @@ impl BuiltInFunction {
                     Primitive::Int(i32) => Primitive::BigInt(*i32 as i128),
                     Primitive::BigInt(i128) => Primitive::BigInt(*i128),
                     Primitive::Byte(u8) => Primitive::BigInt(*u8 as i128),
-                    Primitive::Float(f64) => Primitive::BigInt((*f64 as i64).into()),
+                    Primitive::Float(f64) => {
+                        // 2^127 is the first magnitude that does not fit an i128
+                        if !f64.is_finite() || f64.abs() >= 170141183460469231731687303715884105728.0 {
+                            bail!("`{f64}` cannot be made into a bigint")
+                        }
+                        Primitive::BigInt(*f64 as i128)
+                    }
                     bad => unreachable!("{bad}"),
                 };
 
